@@ -171,6 +171,9 @@ def layer_reuse_stream(ctx, stream, n):
 
 
 def run(ctx: Ctx):
+    from ..rules_common import interpreter_modes
+
+    interpreter_modes(ctx, "layers")
     run_witnesses(ctx)
     quick = ctx.quick()
     s = Stream(ctx, "tree shapes <= 5 nodes x relations <= 2 imports x layer partitions/rules (sampled per graph)", exhaustive=False)
